@@ -22,6 +22,11 @@ Findings on the pristine tree (both replayed natively, repair in proposed_fixes/
   (created 10:30:00.5Z, created_after 10:30:00.25 -> excluded; created_before 10:30:00.25 -> included).
 * F25  a token response that is not valid UTF-8 escapes `fetch_access_token` as UnicodeDecodeError (outside the
   client family; the Graph requests already decode with errors="replace").
+
+Round 5: dict comprehensions / tuple targets over symbolic sequences; `datetime.tzinfo`, `replace(tzinfo=None)` (wall-clock
+reading: instant + unconstrained offset) and `astimezone` (same instant) on the (instant, aware) abstraction, so timestamp
+normalisation helpers in front of the bound comparisons are decided instead of havoc'd; path pruning resets the solver core
+per query (`C18Executor.feasible`).  The replayer's fake library serves hidden (trimmed) children: short / empty non-final pages.
 """
 import z3
 
